@@ -154,6 +154,13 @@ Theorem C14_reset_default : forall cap c p init,
 Proof. exact Battery_reset_default. Qed.
 Print Assumptions C14_reset_default.
 
+(* EV.reset(): energy delivered := 0 and the battery's reset() is called *)
+Theorem C14_ev_reset :
+  EV_reset = {| EV_reset_ret := tt; EV_reset__energy_delivered := 0;
+                EV_reset_effects := [("self._battery.reset"%string, [])] |}.
+Proof. exact ev_reset_spec. Qed.
+Print Assumptions C14_ev_reset.
+
 (* after ANY sequence of charge calls on a battery object of any class, reset() restores the
    state the constructor produced (charge = init charge, power = 0; capacity, max power, init
    charge, noise level, transition SoC are never written by the charge kernels: the generated
